@@ -36,27 +36,70 @@ OTHER_SHAPES = ["none", "sub0s0", "sub0s1", "sub1s0"]
 
 
 def build(e, K=2, S=2, M=1, crowd=0, usage=False, allow_list=True, blur=None,
-          acting=None, others=None, nameplate="sym", kf_d6=True):
-    """world + bundles + cast (in-memory state produced by the real handlers) + loaded pre-state"""
+          acting=None, others=None, nameplate="sym", kf_d6=True, share=None, fresh_bundles=(), ghosts=()):
+    """world + bundles + cast (in-memory state produced by the real handlers) + loaded pre-state.
+    share: the Ctx of the first run of a two-run product: same bundle terms (except the indices in
+    fresh_bundles, which get independent new bundles), same cast shapes, same environment draws.
+    ghosts: extra connections that subscribe / bind during set-up and disconnect again, leaving idle
+    registry objects behind (C11)"""
     x = Ctx()
-    w = SymWorld(e, allow_list=allow_list, blur=blur, usage=usage)
+    w = SymWorld(e, allow_list=allow_list, blur=blur, usage=usage, env=(share.w.env if share else None),
+                 label="w2" if share else "w1")
     x.w, x.e = w, e
-    for k in range(K):
-        w.make_bundle(S_=S, M=M, crowd=(crowd if k == 0 else 0), nameplate=nameplate)
-    w.assume_bundle_inv()
+    x.syms = {}
+
+    def sym(name):
+        if share is not None and name in share.syms:
+            x.syms[name] = share.syms[name]
+        else:
+            x.syms[name] = e.sym_str(name)
+        return x.syms[name]
+    if share is None:
+        for k in range(K):
+            w.make_bundle(S_=S, M=M, crowd=(crowd if k == 0 else 0), nameplate=nameplate)
+    else:
+        for k, b in enumerate(share.w.bundles):
+            if k in fresh_bundles:
+                w.make_bundle(S_=S, M=M, crowd=(crowd if k == 0 else 0), nameplate=nameplate, tag="b%d'" % k)
+                w.bundles[-1].k = k
+            else:
+                w.bundles.append(b)
+    if share is None or fresh_bundles:
+        w.assume_bundle_inv(next_npid=(share.w.next_npid if share else None))
+    else:
+        w.next_npid = share.w.next_npid
     B = w.bundles
-    acting = acting or ACTING_SHAPES
-    others = others or OTHER_SHAPES
-    a_shape = acting[e.choose(len(acting), "acting")]
-    o_shape = others[e.choose(len(others), "others")]
+    if share is not None:
+        a_shape, o_shape = share.a_shape, share.o_shape
+    else:
+        acting = acting or ACTING_SHAPES
+        others = others or OTHER_SHAPES
+        a_shape = acting[e.choose(len(acting), "acting")]
+        o_shape = others[e.choose(len(others), "others")]
     x.a_shape, x.o_shape = a_shape, o_shape
     x.subs = []        # (conn, bundle, side slot) of connections subscribed in the pre-state
+    # ghosts: come, subscribe / bind, and leave again before the pre-state is taken
+    for gi, g in enumerate(ghosts):
+        gc = w.new_conn("g%d" % gi)
+        if g == "sub0":
+            e.assume(B[0].p)
+            w.bind(gc, B[0].app, B[0].sides[0].side)
+            w.deliver(gc, w.msg("open", mailbox=B[0].mid))
+        elif g == "sub1":
+            e.assume(B[1].p)
+            w.bind(gc, B[1].app, B[1].sides[0].side)
+            w.deliver(gc, w.msg("open", mailbox=B[1].mid))
+        elif g == "idle0":
+            w.bind(gc, B[0].app, sym("g.side"))
+        elif g == "idlex":
+            w.bind(gc, sym("g.app"), sym("g.side"))
+        w.disconnect(gc)
     # other connection first (it subscribed earlier)
     x.other = None
     if o_shape == "idle0":
         # bound to bundle 0's app, holds nothing
         o = w.new_conn("o1")
-        w.bind(o, B[0].app, e.sym_str("o.side"))
+        w.bind(o, B[0].app, sym("o.side"))
         x.other = o
     elif o_shape != "none":
         bj = {"sub0s0": 0, "sub0s1": 0, "sub1s0": 1}[o_shape]
@@ -82,7 +125,7 @@ def build(e, K=2, S=2, M=1, crowd=0, usage=False, allow_list=True, blur=None,
     if a_shape in ("unbound", "unopened"):
         x.app, x.side = None, None
     elif a_shape == "fresh":
-        x.app, x.side = e.sym_str("c.app"), e.sym_str("c.side")
+        x.app, x.side = sym("c.app"), sym("c.side")
         w.bind(c, x.app, x.side)
     elif a_shape == "sub0":
         b = B[0]
